@@ -209,6 +209,25 @@ def is_mixed_hard(parts) -> bool:
     return h and o
 
 
+def first_fragment_decides_wrongly(parts) -> bool:
+    """The extent of the known finding C09-concat-quote-type ("the quote type of a concatenated token is that
+    of its first character"), stated on the written token alone: treating the WHOLE token the way its first
+    fragment is treated differs from the documented per-fragment treatment, i.e.
+      - the first fragment is hard-quoted and a later fragment that is NOT hard-quoted contains a reference
+        (documented: substituted), or
+      - the first fragment is not hard-quoted and a later hard-quoted fragment contains a reference
+        (documented: not substituted).
+    Every other token - in particular a hard-quoted fragment with reference-like text followed by fragments
+    without references, as in `'@[X]@'.txt` - is outside the finding."""
+    if len(parts) < 2:
+        return False
+    first_hard = parts[0][0] == HARD
+    for form, c in parts[1:]:
+        if (form == HARD) != first_hard and n_refs(c) > 0:
+            return True
+    return False
+
+
 # --------------------------------------------------------------------------- here-document
 
 def heredoc(lines, marker: str):
